@@ -21,8 +21,11 @@ def check(ctx, run):
     walkers.w_init(ctx, run, 'R05.1', floor=15)
     walkers.w_advance(ctx, run, 'R05.2', floor=24)
     walkers.w_pair(ctx, run, 'R05.14', floor=65)
+    from rules import units as _units
+    _units.check(ctx, run, 'R05.15', floor=1500)
     accessors.r05_4(ctx, run)
     accessors.r05_5(ctx, run)
+    accessors.r05_17(ctx, run)
     accessors.r05_6(ctx, run)
     accessors.r05_7(ctx, run)
     accessors.r05_8(ctx, run)
@@ -33,4 +36,6 @@ def check(ctx, run):
     accessors.name_variants_alike(ctx, run, 'R05.11', lambda p_: p_.startswith('functions::'))
     from rules import layout as _layout
     _layout.r01_2(ctx, run, rule='R05.12/R01.2')
+    from rules import intarith as _ia
+    _ia.param_cast_sites(ctx, run, 'R05.16/R20.5', only=lambda p_: p_.startswith('functions::get_') or p_.startswith('functions::exists'))
     return report.finish(run, level='other', explanation=EXPLANATION, assumptions=["A1: documents are valid JSONB (the property's precondition)", "A2: no wrap of usize offsets"])
